@@ -100,6 +100,38 @@ def gen(tier, rng):
     for ci, cpu in enumerate(("avx512g2", "avx512", "avx2", "base") if tier == "quick" else CPUS):
         for level in (1, 2, 3):
             add(api=["deflate_stateless", "deflate"][(ci + level) % 2], inp=near, level=level, wrap=[0, 1, 3][(ci + level) % 3], lbuf=3, calls=[[len(near), len(near) + 4000, 0, 1]], tail_ao=1 << 18, meta={"cls": "near-miss-far-matches", "cpu": cpu})
+    # a long run (a series of length-258 tokens) beginning at every fill level of the smallest level buffers' token buffer: mostly incompressible
+    # data of P bytes (with a short repeat every 600 bytes), a 3000-byte run, then more data; P swept over more than one buffer fill
+    rndp = igz.corpus(rng, "random", 3400)
+    for i in range(0, 3400 - 12, 600): rndp[i + 300:i + 306] = rndp[i:i + 6]
+    for P in range(1500, 3300, 6 if tier == "quick" else 1):
+        for level in ((1 + (P // 6) % 2,) if tier == "quick" else (1, 2, 3)):
+            inp = rndp[:P] + [rndp[P] ^ 0x55] * 3000 + rndp[100:600]
+            add(api=["deflate", "deflate_stateless"][(P // 12) % 2], inp=inp, level=level, wrap=[1, 0, 3][P % 3], lbuf=0, calls=[[len(inp), len(inp) + 600, 0, 1]], tail_ao=1 << 16, meta={"cls": "run-at-token-buffer-fill", "cpu": ["host", "avx2", "sse"][(P // 6) % 3]})
+    # every match length that begins or ends a length code, as the only long match of its block (a run of L+1 equal bytes between incompressible
+    # letters): the symbol's count comes from one token only
+    letters = [rng.choice(b"abcdefghijklmnopqrstuvwxyz") for _ in range(7000)]
+    from defgen import LEN_BASE as _LB, LEN_EXTRA as _LE
+    edge_lens = sorted(set([_LB[i] for i in range(29)] + [_LB[i] + (1 << _LE[i]) - 1 for i in range(28)] + [254, 255, 256, 257, 258]))
+    for i, L in enumerate(edge_lens):
+        if L < 4: continue
+        inp = letters[:4500] + [ord("Q")] * (L + 1) + letters[4500:6500]
+        for level in (1, 2, 3):
+            if tier == "quick" and (i + level) % 3 and L < 227: continue
+            add(api=["deflate_stateless", "deflate"][i % 2], inp=inp, level=level, wrap=[0, 1, 3][(i + level) % 3], lbuf=3, calls=[[len(inp), len(inp) + 600, 0, 1]], tail_ao=1 << 16, meta={"cls": "single-match-of-length-%d" % L, "cpu": CPUS[(i + level) % len(CPUS)]})
+    # one far match per distance code, each with an odd extra-bits value (the last distance of the code), so that every distance symbol of the block
+    # is counted exactly once
+    once = []
+    for ds in range(8, 30):
+        d = defgen_DIST_BASE[ds] + (1 << defgen_DIST_EXTRA[ds]) - 1
+        key = [rng.choice(hi_bytes) for _ in range(14)]
+        seg = key + [97 + (i % 3) for i in range(d - len(key))]
+        once += seg + key + [100 + (i % 3) for i in range(30 + ds)]
+    for ci, cpu in enumerate(("avx512g2", "avx2", "base") if tier == "quick" else CPUS):
+        for level in (1, 2, 3):
+            for cut in (0, 1, 2, 3):          # (the length of the input shifts which token ends a batch of the level 3 match buffer)
+                if tier == "quick" and (ci + level + cut) % 2: continue
+                add(api=["deflate_stateless", "deflate"][(ci + level) % 2], inp=once[cut * 7:], level=level, wrap=[0, 1, 3][(ci + cut) % 3], lbuf=3, calls=[[len(once) - cut * 7, len(once) + 4000, 0, 1]], tail_ao=1 << 18, meta={"cls": "one-far-match-per-distance-code", "cpu": cpu})
     # large inputs: stored-block splitting at 65535, 16-bit hash position wrap, internal buffer wrap
     big = [("random", 70000, 0), ("periodic", 200000, 2), ("text", 66000, 1), ("records", 36000 if tier == "quick" else 140000, 3)]
     if tier == "thorough":
